@@ -86,7 +86,7 @@ theorem decode32_bounds (x m : ℕ) (neg : Bool) (e : ℤ) (hx : decode b32 x = 
 /-- `f32 as f64` is exact: the binary64 pattern decodes to the same sign and the same value. -/
 theorem f32ToF64_fin (x m : ℕ) (neg : Bool) (e : ℤ) (hx : decode b32 x = .fin neg m e) :
     f32ToF64 x < 2 ^ 64 ∧ ∃ m' e', decode b64 (f32ToF64 x) = .fin neg m' e'
-      ∧ floorHalf m' e' = floorHalf m e ∧ (m = 0 → m' = 0) := by
+      ∧ floorHalf m' e' = floorHalf m e ∧ (m = 0 → m' = 0) ∧ (m ≠ 0 → m' ≠ 0) := by
   obtain ⟨hm24, he1, he2⟩ := decode32_bounds x m neg e hx
   have hs : sgn b64 neg ≤ 2 ^ 63 := by
     cases neg <;> simp [sgn, Fmt.signBit, b64]
@@ -98,7 +98,7 @@ theorem f32ToF64_fin (x m : ℕ) (neg : Bool) (e : ℤ) (hx : decode b32 x = .fi
   · subst hm0
     have : rneMag b64 0 e = 0 := by simp [rneMag]
     rw [this, Nat.add_zero]
-    refine ⟨by omega, 0, -1074, ?_, ?_, fun _ => rfl⟩
+    refine ⟨by omega, 0, -1074, ?_, ?_, fun _ => rfl, fun h => absurd rfl h⟩
     · have := decode_sgn neg 0 0 (-1074) (by norm_num) decode_zero
       simpa using this
     · rw [floorHalf_zero, floorHalf_zero]
@@ -130,7 +130,7 @@ theorem f32ToF64_fin (x m : ℕ) (neg : Bool) (e : ℤ) (hx : decode b32 x = .fi
     rw [← hMr] at hn hMr1 hMr2
     rw [if_neg (by omega)] at hn
     rw [hn]
-    refine ⟨by omega, Mr, -1074 + (Q : ℤ), ?_, ?_, fun h => by omega⟩
+    refine ⟨by omega, Mr, -1074 + (Q : ℤ), ?_, ?_, fun h => by omega, fun _ => by omega⟩
     · apply decode_sgn neg _ _ _ (by omega)
       have := decode_assembled b64 b64_ok Q Mr (by rw [hmb]; exact hMr1) (by rw [hmb]; omega)
         (by rw [hinf, hmb]; omega)
@@ -140,5 +140,11 @@ theorem f32ToF64_fin (x m : ℕ) (neg : Bool) (e : ℤ) (hx : decode b32 x = .fi
       · omega
     · have : -1074 + (Q : ℤ) = e - ((52 + 1 - L : ℕ) : ℤ) := by omega
       rw [this, hMr, floorHalf_scale]
+
+/-- `±∞ as f64` stays `±∞`. -/
+theorem f32ToF64_inf (x : ℕ) (n : Bool) (hx : decode b32 x = .inf n) : decode b64 (f32ToF64 x) = .inf n := by
+  unfold f32ToF64
+  rw [hx]
+  cases n <;> decide +kernel
 
 end Ruint.Float
